@@ -162,6 +162,40 @@ for dtype in (np.int32, np.int64, np.int16, np.uint8):
                 {"dtype": str(np.dtype(dtype)), "built from": how}, lambda dtype=dtype, how=how: matrix_is_a_value(dtype, how))
 
 
+def database_matrices_are_values(name):
+    """the documented recipe for a custom matrix (take dict_from_db(), edit it, build a matrix from it) must not
+    change what the database name stands for afterwards: later matrices of that name have the database scores"""
+    alph = seq.ProteinSequence.alphabet if name != "NUC" else seq.NucleotideSequence.alphabet_amb
+    before = align.SubstitutionMatrix(alph, alph, name)
+    ref = before.score_matrix().copy()
+    d = align.SubstitutionMatrix.dict_from_db(name)
+    k0 = sorted(d)[0]
+    keys = [k for k in d if k[0] != k[1]][:3]
+    for k in keys:
+        d[k] = 100
+    custom = align.SubstitutionMatrix(alph, alph, d)
+    if any(custom.get_score(*k) != 100 for k in keys):
+        return "the matrix built from the edited dictionary lacks the edits"
+    after = align.SubstitutionMatrix(alph, alph, name)
+    if after.score_matrix().tolist() != ref.tolist():
+        bad = [k for k in keys if after.get_score(*k) != before.get_score(*k)]
+        return f"after editing a dictionary obtained from dict_from_db({name!r}), SubstitutionMatrix(..., {name!r}) scores {bad} as {[after.get_score(*k) for k in bad]}"
+    again = align.SubstitutionMatrix.dict_from_db(name)
+    if any(again[k] == 100 for k in keys):
+        return f"dict_from_db({name!r}) returns the edited scores on the next call"
+    std = align.SubstitutionMatrix.std_protein_matrix() if name == "BLOSUM62" else (align.SubstitutionMatrix.std_nucleotide_matrix() if name == "NUC" else None)
+    if std is not None and std.score_matrix().tolist() != ref.tolist():
+        return "the standard matrix differs from the database matrix of its name"
+    if before.score_matrix().tolist() != ref.tolist():
+        return "a matrix built earlier changed"
+    return None
+
+
+for name in ("BLOSUM62", "PAM250", "NUC", "BLOSUM62", "BLOSUM50"):
+    R.check("substitution matrix accessors and transpose() agree with the score table", "database matrices keep their scores", {"name": name},
+            lambda name=name: database_matrices_are_values(name))
+
+
 _mrng = np.random.default_rng(8)
 RECT = _mrng.integers(-5, 6, size=(4, len(A2))).astype(np.int32)
 RECT_MATRIX = align.SubstitutionMatrix(A1, A2, RECT)
